@@ -15,7 +15,12 @@
    code 2: the history-level specification of C18/C19 (FwReload.flow_ok, for every flow of the history), evaluated
            on the IMPLEMENTATION's verdicts, rejects them: a packet passed that no rule allows and that has no
            live, validated tracked flow; or a packet was refused although a rule allows it or its flow is tracked,
-           not idle longer than its timeout, and its original direction is allowed by the current rules. *)
+           not idle longer than its timeout, and its original direction is allowed by the current rules.
+           The specification is taken AS THE PROPERTY STATES IT (flow_ok false): a reload only ever marks flows for
+           revalidation. The code additionally forgets every flow when rulesVersion wraps from 65535 to 0, which
+           cuts flows the rules still allow: known finding F25, signature reload-version-wrap; the theorems
+           (props/C19.v) are proved for the code's behaviour (flow_ok true) and the two specifications agree on
+           every history without a wrap (C19_history_spec_as_stated). *)
 From Coq Require Import List ZArith NArith Bool.
 Import ListNotations.
 From NV Require Import lib.Corr model.Wheel model.Conntrack model.FwReload.
@@ -97,5 +102,5 @@ Definition check_case (c : case) : list N :=
       flag 1 (static_ok tab rs0 h)
       ++ flag 1 (forallb (fun o => negb (N.eqb o 3)) obs)
       ++ flag 1 (blist_eqb model impl)
-      ++ flag 2 (forallb (fun f => flow_ok al ao f (spec_boot rs0 v0 tcp udp def 0%Z) hh impl) (dedup (tuples_of hh)))
+      ++ flag 2 (forallb (fun f => flow_ok al ao false f (spec_boot rs0 v0 tcp udp def 0%Z) hh impl) (dedup (tuples_of hh)))
   end.
